@@ -40,6 +40,7 @@ impl Rng {
 static LAST_PROGRESS_MS: std::sync::atomic::AtomicU64 = std::sync::atomic::AtomicU64::new(0);
 static STALL_LIMIT_S: std::sync::atomic::AtomicU64 = std::sync::atomic::AtomicU64::new(600);
 static CURRENT: std::sync::Mutex<String> = std::sync::Mutex::new(String::new());
+static LAST_DONE: std::sync::Mutex<String> = std::sync::Mutex::new(String::new());
 static START: std::sync::OnceLock<std::time::Instant> = std::sync::OnceLock::new();
 
 fn now_ms() -> u64 {
@@ -73,9 +74,13 @@ fn start_watchdog(suite: String, out: String) {
             .unwrap_or_else(|| STALL_LIMIT_S.load(std::sync::atomic::Ordering::Relaxed));
         if idle >= limit {
             let cur = CURRENT.lock().map(|c| c.clone()).unwrap_or_default();
+            let last = LAST_DONE.lock().map(|c| c.clone()).unwrap_or_default();
             let _ = std::fs::write(
                 format!("{}/stall.json", out),
-                format!("{{\"suite\":{},\"idle_secs\":{},\"current\":{}}}", jstr(&suite), idle, jstr(&cur)),
+                format!(
+                    "{{\"suite\":{},\"idle_secs\":{},\"current\":{},\"last_completed\":{}}}",
+                    jstr(&suite), idle, jstr(&cur), jstr(&last)
+                ),
             );
             eprintln!("suite {} made no progress for {} s; in flight: {}", suite, idle, cur);
             std::process::exit(97);
@@ -130,6 +135,13 @@ impl Ctx {
     pub fn emit(&mut self, query: &str, answer: &str) {
         debug_assert!(!query.contains('\n') && !answer.contains('\n'));
         progress();
+        if let Ok(mut l) = LAST_DONE.lock() {
+            l.clear();
+            l.extend(query.chars().take(600));
+        }
+        if let Ok(mut c) = CURRENT.lock() {
+            c.clear();
+        }
         writeln!(self.cases, "{}", query).unwrap();
         writeln!(self.imp, "{}", answer).unwrap();
         self.n_cases += 1;
